@@ -856,6 +856,9 @@ func (c *Ctx) modularCall(fi *FuncInfo, recv Value, args []Value, e *ast.CallExp
 			c.st.after = map[string]*State{}
 		}
 		c.st.after[fi.Decl.Name.Name] = snap
+		bsnap := pre.Clone()
+		bsnap.after = nil
+		c.st.after["<"+fi.Decl.Name.Name] = bsnap
 	}
 	return res
 }
